@@ -1,0 +1,58 @@
+//go:build verif
+
+// Contracts for package wkbcommon, read by the VC generator in /verif (govc).
+// Comments only; compiled only with -tags verif; adds no code.
+
+package wkbcommon
+
+// ---------------------------------------------------------------- assumed contracts on the standard library
+
+//@ extern encoding/binary.(littleEndian).Uint32(o, b)
+//@   pure
+//@   requires len(b) >= 4
+//@ extern encoding/binary.(bigEndian).Uint32(o, b)
+//@   pure
+//@   requires len(b) >= 4
+//@ extern encoding/binary.(littleEndian).Uint64(o, b)
+//@   pure
+//@   requires len(b) >= 8
+//@ extern encoding/binary.(bigEndian).Uint64(o, b)
+//@   pure
+//@   requires len(b) >= 8
+
+//@ extern io.ReadFull(r, buf) (n, err)
+//@   requires r != nil
+//@   modifies buf[*]
+//@   ensures 0 <= n && n <= len(buf)
+//@   ensures err == nil ==> n == len(buf)
+
+//@ extern encoding/hex.Decode(dst, src) (n, err)
+//@   requires len(dst) >= len(src) / 2
+//@   modifies dst[*]
+//@   ensures 0 <= n && n <= len(src) / 2
+//@   ensures err == nil ==> n == len(src) / 2
+
+//@ extern bytes.NewReader(b)
+//@   modifies nothing
+//@   ensures result != nil
+
+// ---------------------------------------------------------------- byte decoders
+
+//@ func unmarshalUint32(order, buf)
+//@   pure
+//@   requires len(buf) >= 4
+
+//@ func readUint32(r, order, buf)
+//@   requires r != nil && len(buf) == 4
+//@   modifies buf[*]
+
+//@ func readByteOrderType(r, buf)
+//@   requires r != nil && len(buf) >= 4
+//@   modifies buf[*]
+
+//@ func readPoint(r, order, buf)
+//@   requires r != nil && len(buf) == 8
+//@   modifies buf[*]
+
+//@ func (*Decoder).Decode(d)
+//@   requires d.r != nil
